@@ -413,3 +413,6 @@ package openapi3
 //@   loop 0 invariant forall j int :: left <= j && j <= right ==> path[j] == err.reversePath[j]
 //@   ensures [reversed] len(result) == len(err.reversePath) && (forall j int :: 0 <= j && j < len(result) ==> result[j] == err.reversePath[len(result) - 1 - j])
 //@   tag C12
+// C13: the schema visit never touches the request the value was decoded from
+//@ extend func (*Schema).VisitJSON
+//@   preserves @C13 http.Request.Body, http.Request.GetBody, http.Request.ContentLength, openapi3filter.RequestValidationInput.*, openapi3filter.Options.*
